@@ -689,6 +689,8 @@ pub struct Knobs {
     pub early_return: bool,
     /// rarely give a definition two parameters with one name (a CFG-stage report)
     pub dup_params: bool,
+    /// probability (per 1000) that a local array is initialised where it is declared
+    pub array_init_permille: u32,
     /// literals are drawn modulo this prime family: 0 = bn254
     pub prime: usize,
 }
@@ -724,6 +726,7 @@ impl Knobs {
             circomlib_names: b(1, 4),
             early_return: b(1, 4),
             dup_params: b(1, 6),
+            array_init_permille: 900,
             max_stmts: 2 + rng.usize(14),
             max_depth: rng.usize(4),
             expr_depth: 1 + rng.usize(3),
@@ -1204,7 +1207,7 @@ impl<'a> Ctx<'a> {
         let ed = self.k.expr_depth;
         let can_nest = depth < self.k.max_depth;
         for _ in 0..4 {
-            match self.rng.usize(16) {
+            match self.rng.usize(17) {
                 0 | 1 => {
                     // var declaration
                     let mut items = Vec::new();
@@ -1217,7 +1220,7 @@ impl<'a> Ctx<'a> {
                         let is_arr = self.k.arrays && self.rng.chance(1, 4);
                         if is_arr {
                             let size = 1 + self.rng.usize(3);
-                            let init = if self.rng.chance(9, 10) {
+                            let init = if self.rng.below(1000) < self.k.array_init_permille as u64 {
                                 Some(Expr::Array((0..size).map(|_| self.expr(1, 0)).collect()))
                             } else {
                                 None
@@ -1339,6 +1342,11 @@ impl<'a> Ctx<'a> {
                         return s;
                     }
                 }
+                14 if self.k.arrays && depth == 0 && self.k.array_init_permille < 900 => {
+                    if let Some(s) = self.array_idiom() {
+                        return s;
+                    }
+                }
                 12 | 13 if !self.in_function && self.reg.has_circomlib && depth == 0 => {
                     if let Some(s) = self.idiom() {
                         return s;
@@ -1443,6 +1451,60 @@ impl<'a> Ctx<'a> {
         for r in ["IsZero", "LessThan", "Num2Bits", "Bits2Num"] {
             if !self.refs.iter().any(|x| x == r) {
                 self.refs.push(r.to_string());
+            }
+        }
+        let mut toks = Vec::new();
+        for s in &stmts {
+            stmt_tokens(s, &mut toks);
+        }
+        Some(Stmt::Raw(toks))
+    }
+
+    /// A local array filled element by element in different basic blocks and read
+    /// afterwards: the shape on which the degree (and value) of an array depends on
+    /// the order in which the fixpoint iteration visits the writes.
+    fn array_idiom(&mut self) -> Option<Stmt> {
+        self.fresh += 1;
+        let arr = format!("arr{}", self.fresh);
+        let mode = if self.in_function { 0 } else { 1 };
+        let mut stmts: Vec<Stmt> = Vec::new();
+        stmts.push(Stmt::Decl {
+            kw: DeclKw::Var,
+            items: vec![DeclItem { name: arr.clone(), dims: vec![Expr::Num("2".into())], init: None }],
+            init_op: "=",
+        });
+        let elem = |i: usize| Expr::Access(arr.clone(), vec![Acc::Idx(Expr::Num(format!("{i}")))]);
+        let first = self.rng.usize(2);
+        let dd = 2 + self.rng.usize(2);
+        let deep = self.expr(dd, mode);
+        stmts.push(Stmt::Assign { lhs: elem(first), op: "=", rhs: deep, reversed: false });
+        // something that ends the basic block
+        let second_rhs = if self.rng.chance(2, 3) { self.expr(1, 0) } else { self.expr(2, mode) };
+        let second = Stmt::Assign { lhs: elem(1 - first), op: "=", rhs: second_rhs, reversed: false };
+        match self.rng.usize(4) {
+            0 => {
+                let c = self.cond();
+                stmts.push(Stmt::If { cond: c, then: Box::new(Stmt::Block(vec![Stmt::Log(vec![LogArg::Str("x".into())])])), els: None });
+                stmts.push(second);
+            }
+            1 => {
+                let c = self.cond();
+                stmts.push(Stmt::If { cond: c, then: Box::new(Stmt::Block(vec![second])), els: None });
+            }
+            2 => {
+                let c = self.cond();
+                let other = Stmt::Assign { lhs: elem(1 - first), op: "=", rhs: self.expr(1, 0), reversed: false };
+                stmts.push(Stmt::If { cond: c, then: Box::new(Stmt::Block(vec![second])), els: Some(Box::new(Stmt::Block(vec![other]))) });
+            }
+            _ => stmts.push(second),
+        }
+        self.declare_var(&arr, 1, 2);
+        // read it back
+        let idx = self.rng.usize(2);
+        if !self.in_function {
+            if let Some(Stmt::Assign { lhs, .. }) = self.signal_assign() {
+                let op = if self.rng.chance(1, 2) { "<--" } else { "<==" };
+                stmts.push(Stmt::Assign { lhs, op, rhs: elem(idx), reversed: false });
             }
         }
         let mut toks = Vec::new();
